@@ -29,8 +29,10 @@ def n_cases(tier):
 
 def gen_case(rng, tier, idx):
     if idx % 4 == 3:
-        return {"kind": "api", "steps": rng.randint(5, 40)}
+        return {"kind": "api", "steps": rng.randint(5, 40), "pool": 8 if idx % 40 != 39 else rng.choice([258, 300, 520])}
     n = rng.choice([0, 1, 2, 3, 4, 5, 6, 8, 12, 31, 32, 33]) if rng.random() < 0.93 else rng.choice([64, 65, 128, 129])
+    if idx % 100 == 58:
+        n = rng.choice([258, 270])       # more sources than CPython has shared small-int objects
     trig = [rng.choice(["level", "rise", "fall"]) for _ in range(n)]
     # add order: a shuffled order with repeats interleaved
     order = list(range(n))
@@ -166,6 +168,12 @@ def run_api(case, rng):
     emaps = [event.EventMap() for _ in range(nmaps)]
     pool = [event.Source(trigger=rng.choice(["level", "rise", "fall"]), path=(f"p{i}",)) for i in range(5)]
     pool += [EqSource(rng.choice(["rx", "tx"]), trigger=rng.choice(["level", "rise"]), path=(f"e{i}",)) for i in range(3)]
+    if case.get("pool", 8) > 8:
+        # a big interrupt controller: hundreds of sources, mostly added one after the other
+        pool += [event.Source(trigger="level", path=(f"q{i}",)) for i in range(case["pool"] - 8)]
+        case = dict(case, steps=case["pool"] + case["steps"])
+    big = len(pool) > 8
+    cursor = [0]
     models = [[] for _ in range(nmaps)]          # per map: indices into pool, first-add order
     frozen = [False] * nmaps
     hist = []
@@ -182,8 +190,15 @@ def run_api(case, rng):
             op = rng.choice(["add", "add", "add", "index", "sources", "freeze" if rng.random() < 0.2 else "add",
                              "add_bad", "index_bad"])
             before = snapshot(k)
+            if big and rng.random() < 0.85:
+                op, k = "add", 0
+                emap, model = emaps[k], models[k]
+                before = snapshot(k)
             if op == "add":
                 j = rng.randrange(len(pool))
+                if big and rng.random() < 0.9:
+                    j = cursor[0] % len(pool)
+                    cursor[0] += 1
                 hist.append(("add", k, j))
                 mon.log(hist[-1])
                 try:
